@@ -59,6 +59,8 @@ pub struct Sel {
     /// 127 of the 4096 king-pair shards)
     pub m4_corner: Option<i32>,
     pub sanamb: Option<(usize, bool)>,
+    /// number of king placements (of 6) used by SANAMB; 0 = all
+    pub sanamb_kings: usize,
     /// two simultaneous pin lines, men at distance <= n from the king
     pub pin2: Option<usize>,
     /// slider-table universe at position level
@@ -247,7 +249,7 @@ pub fn run_universes(run: &mut Run, sel: &Sel, disagree_idx: usize, check: PosCh
             &format!("SANAMB ({} same pieces{})", n, if pin { " + pinner" } else { "" }),
             uni::SANAMB_SHARDS,
             |ctx, sh| {
-                uni::sanamb(sh, n, pin, &mut |p| visit(ctx, p, disagree_idx, check));
+                uni::sanamb_k(sh, n, pin, if sel.sanamb_kings == 0 { 6 } else { sel.sanamb_kings }, &mut |p| visit(ctx, p, disagree_idx, check));
             },
         );
     }
@@ -319,12 +321,15 @@ pub fn run_universes(run: &mut Run, sel: &Sel, disagree_idx: usize, check: PosCh
     }
     if let Some(maxd) = sel.m4_corner {
         let dist = |a: usize, b: usize| (file_of(a) - file_of(b)).abs().max((rank_of(a) - rank_of(b)).abs());
-        let shards: Vec<usize> = (0..uni::M4_SHARDS).filter(|sh| (sh / 64 == 63 || sh % 64 == 7) && dist(sh / 64, sh % 64) <= maxd).collect();
+        // a negative bound means: the white-king-on-h8 half only
+        let wk_only = maxd < 0;
+        let maxd = maxd.abs();
+        let shards: Vec<usize> = (0..uni::M4_SHARDS).filter(|sh| (sh / 64 == 63 || (!wk_only && sh % 64 == 7)) && dist(sh / 64, sh % 64) <= maxd).collect();
         run.par_shards(
             &format!("M4-corner (4 men, {} king-pair shards: wK on h8 or bK on h1, kings at most {} apart)", shards.len(), maxd),
-            shards.len(),
+            shards.len() * 64,
             |ctx, i| {
-                uni::m4(shards[i], &mut |p| visit(ctx, p, disagree_idx, check));
+                uni::m4_x(shards[i / 64], Some(i % 64), &mut |p| visit(ctx, p, disagree_idx, check));
             },
         );
     }
